@@ -68,6 +68,12 @@ def init():
     import demeter.core.actuator as act
 
     act.tqdm = FakeTqdm
+    try:  # the option-book loader imports tqdm at call time (`from tqdm import tqdm`): same no-op bar
+        import tqdm as _tqdm_mod
+
+        _tqdm_mod.tqdm = FakeTqdm
+    except Exception:
+        pass
     logging.disable(logging.CRITICAL)
     global _decimal_context
     import decimal
